@@ -33,6 +33,8 @@ CLASSES = {
     "ruma_identifiers_validation::room_alias_id::validate": 4,
     "ruma_identifiers_validation::server_name::validate": 5,
     "ruma_identifiers_validation::room_id_or_alias_id::validate": 6,
+    "ruma_identifiers_validation::base64_public_key::validate": 7,
+    "ruma_identifiers_validation::client_secret::validate": 8,
 }
 
 INTS = {
@@ -67,6 +69,20 @@ class Custom(Exception):
     pass
 
 
+def snake(name):
+    out = ""
+    for i, ch in enumerate(name):
+        if ch.isupper() and i > 0:
+            out += "_"
+        out += ch.lower()
+    return out
+
+
+SIMPLE_RULES = {  # ruma-macros/src/util.rs / case.rs, the three rules whose result is plain to compute
+    "SnakeCase": snake, "LowerCase": lambda n: n.lower(), "PascalCase": lambda n: n,
+}
+
+
 def identifier_classes():
     """Owned<X> / X for every `#[derive(IdZst)]` struct of ruma-common: validator class or 0."""
     out = {}
@@ -87,15 +103,17 @@ def identifier_classes():
     return out, items
 
 
-def build():
+def resolver(crates=("ruma-events",)):
+    """-> (of_item, of_type, fields_of, feats, items per crate): the schema of an item / a type / a list
+    of fields, resolved over the items of ruma-common and the given crates"""
     feats, _linked = c19.enabled_features()
     for fn, (path, body) in DEFAULT_FN_BODY.items():
         if body not in open(os.path.join(c19.REPO, path)).read():
             raise TranslateError("%s: the body of %s is not the expected one" % (path, fn))
     idcls, common_items = identifier_classes()
-    ev_items = S.crate_items("ruma-events")
+    per_crate = {c: S.crate_items(c) for c in crates}
     by_name = {}
-    for it in ev_items + common_items:
+    for it in [i for c in crates for i in per_crate[c]] + common_items:
         if all(c19.cfg_eval(c, feats.get(it.crate, set())) for c in it.cfgs):
             by_name.setdefault(it.name, []).append(it)
     enums = {}
@@ -155,7 +173,18 @@ def build():
                     raise Custom("string enum %s: aliased variant without explicit rename" % name)
                 for a in v["aliases"]:
                     al.append((a, canon))
-        return ("enum", al)
+        # Default::default(): the string of the variant carrying #[default], when the enum derives Default
+        dflt = None
+        its = [i for i in by_name.get(name, []) if i.kind == "enum" and i.file == e.file]
+        if len(its) == 1 and "Default" in its[0].derives:
+            dv = [v for v in its[0].variants if v.is_default]
+            if len(dv) == 1:
+                ren = dv[0].ruma_enum.get("rename")
+                if ren is not None:
+                    dflt = ren
+                elif e.rule in SIMPLE_RULES:
+                    dflt = SIMPLE_RULES[e.rule](dv[0].name)
+        return ("enum", al, dflt)
 
     def of_type(ty, ctx):
         if ty[0] != "path":
@@ -171,8 +200,10 @@ def build():
             return ("int",) + INTS[name]
         if name in UINT_NEWTYPES:
             return ("int", 0, MAXI)
-        if name in ("JsonValue", "Value") and not args:
+        if name in ("JsonValue", "Value", "RawJsonValue") and not args:
             return ("any",)
+        if name == "Raw" and len(args) == 1:
+            return ("any",)       # the JSON text is kept (fed in canonical form, so printed as the model prints it)
         if name == "JsonObject":
             return ("objany",)
         if name == "RoomVersionId" and not args:
@@ -187,10 +218,7 @@ def build():
                 raise Custom("identifier type %s has no modelled validator" % name)
             return ("str",) if c == 0 else ("id", c)
         if name == "Option" and len(args) == 1:
-            inner = of_type(args[0], ctx)
-            if inner[0] in ("opt", "any"):
-                raise Custom("Option<%s>" % S.ty_text(args[0]))
-            return ("opt", inner)
+            return ("opt", of_type(args[0], ctx))
         if name == "Box" and len(args) == 1:
             return of_type(args[0], ctx)
         if name == "Vec" and len(args) == 1:
@@ -211,6 +239,55 @@ def build():
             return se
         it = resolve(name, ctx)
         return of_item(it)
+
+    def fields_of(it, flds):
+        fields = []
+        fs = feats.get(it.crate, set())
+        for f in flds:
+            if not all(c19.cfg_eval(c, fs) for c in f.cfgs):
+                continue
+            if f.unsupported:
+                raise Custom("%s.%s: %s" % (it.name, f.name, f.unsupported[0]))
+            f_serde = dict(f.serde)
+            f_aliases = list(f.aliases)
+            for pred, items in f.cond_serde:
+                if c19.cfg_eval(pred, fs):
+                    for k, v in items:
+                        if k == "alias":
+                            f_aliases.append(v)
+                        else:
+                            f_serde[k] = v
+            f = type("F", (), {"serde": f_serde, "aliases": f_aliases, "ty": f.ty, "name": f.name})()
+            for k in f.serde:
+                if k not in ("rename", "default", "skip_serializing_if"):
+                    raise Custom("%s.%s: serde(%s)" % (it.name, f.name, k))
+            t = of_type(f.ty, it)
+            wire = f.serde.get("rename", f.name)
+            d = f.serde.get("default")
+            if d is None:
+                dk = ("required",)
+            elif d is True:
+                dk = ("default",)
+            elif d in DEFAULT_FN:
+                dk = ("const", DEFAULT_FN[d])
+            else:
+                raise Custom("%s.%s: default = %s" % (it.name, f.name, d))
+            sk = f.serde.get("skip_serializing_if")
+            if sk is None:
+                skind = ("never",)
+            elif sk in SKIP_PRED:
+                p = SKIP_PRED[sk]
+                skind = (p,) if isinstance(p, str) else p
+            else:
+                raise Custom("%s.%s: skip_serializing_if = %s" % (it.name, f.name, sk))
+            if t[0] == "enum" and t[2] is not None:
+                # `default` / `is_default` on a string enum: the value of the #[default] variant
+                if dk == ("default",):
+                    dk = ("const", t[2])
+                if skind == ("SIfDefault",):
+                    skind = ("SIfEq", t[2])
+            fields.append({"rust": f.name, "name": wire, "aliases": list(f.aliases), "default": dk, "skip": skind, "ty": t})
+        return fields
 
     def of_item(it):
         key = (it.file, it.name)
@@ -248,48 +325,14 @@ def build():
             raise Custom("%s: %s with derived serde (not modelled)" % (it.name, it.kind))
         if bad:
             raise Custom("%s: container attribute serde(%s)" % (it.name, bad[0]))
-        fields = []
-        fs = feats.get(it.crate, set())
-        for f in it.fields:
-            if not all(c19.cfg_eval(c, fs) for c in f.cfgs):
-                continue
-            if f.unsupported:
-                raise Custom("%s.%s: %s" % (it.name, f.name, f.unsupported[0]))
-            f_serde = dict(f.serde)
-            f_aliases = list(f.aliases)
-            for pred, items in f.cond_serde:
-                if c19.cfg_eval(pred, fs):
-                    for k, v in items:
-                        if k == "alias":
-                            f_aliases.append(v)
-                        else:
-                            f_serde[k] = v
-            f = type("F", (), {"serde": f_serde, "aliases": f_aliases, "ty": f.ty, "name": f.name})()
-            for k in f.serde:
-                if k not in ("rename", "default", "skip_serializing_if"):
-                    raise Custom("%s.%s: serde(%s)" % (it.name, f.name, k))
-            t = of_type(f.ty, it)
-            wire = f.serde.get("rename", f.name)
-            d = f.serde.get("default")
-            if d is None:
-                dk = ("required",)
-            elif d is True:
-                dk = ("default",)
-            elif d in DEFAULT_FN:
-                dk = ("const", DEFAULT_FN[d])
-            else:
-                raise Custom("%s.%s: default = %s" % (it.name, f.name, d))
-            sk = f.serde.get("skip_serializing_if")
-            if sk is None:
-                skind = ("never",)
-            elif sk in SKIP_PRED:
-                p = SKIP_PRED[sk]
-                skind = (p,) if isinstance(p, str) else p
-            else:
-                raise Custom("%s.%s: skip_serializing_if = %s" % (it.name, f.name, sk))
-            fields.append({"rust": f.name, "name": wire, "aliases": list(f.aliases), "default": dk, "skip": skind, "ty": t})
-        return ("struct", it.name, fields)
+        return ("struct", it.name, fields_of(it, it.fields))
 
+    return of_item, of_type, fields_of, feats, per_crate
+
+
+def build():
+    of_item, of_type, fields_of, feats, per_crate = resolver(("ruma-events",))
+    ev_items = per_crate["ruma-events"]
     evf = feats.get("ruma-events", set())
     compiled = {(kind, e["ev_type"]) for kind, entries in c19.parse_event_enum() for e in entries
                 if all(c19.cfg_eval(c, evf) for c in e["cfgs"])}
@@ -363,19 +406,26 @@ def coq_ty(t, defs, order):
     if k == "map":
         return "(TMap %d %s)" % (t[1], coq_ty(t[2], defs, order))
     if k == "struct":
-        name = "schema_" + t[1]
-        if name not in defs:
-            fs = []
-            for f in t[2]:
-                d = f["default"]
-                dk = {"required": "DRequired", "default": "DDefault"}.get(d[0]) or "(DConst %s)" % coq_json(d[1])
-                s = f["skip"]
-                sk = {"never": "SNever"}.get(s[0]) or (s[0] if len(s) == 1 else "(SIfEq %s)" % coq_json(s[1]))
-                fs.append("    ({| f_name := %s; f_aliases := [%s]; f_default := %s; f_skip := %s |},\n     %s)" % (
-                    cs(f["name"]), "; ".join(cs(a) for a in f["aliases"]), dk, sk, coq_ty(f["ty"], defs, order)))
-            defs[name] = "Definition %s : ty := TStruct [\n%s ].\n" % (name, ";\n".join(fs))
-            order.append(name)
-        return name
+        fs = []
+        for f in t[2]:
+            d = f["default"]
+            dk = {"required": "DRequired", "default": "DDefault"}.get(d[0]) or "(DConst %s)" % coq_json(d[1])
+            s = f["skip"]
+            sk = {"never": "SNever"}.get(s[0]) or (s[0] if len(s) == 1 else "(SIfEq %s)" % coq_json(s[1]))
+            fs.append("    ({| f_name := %s; f_aliases := [%s]; f_default := %s; f_skip := %s |},\n     %s)" % (
+                cs(f["name"]), "; ".join(cs(a) for a in f["aliases"]), dk, sk, coq_ty(f["ty"], defs, order)))
+        body = "TStruct [\n%s ]" % ";\n".join(fs)
+        # two structs of the same name in different modules get different Coq names
+        base, n = "schema_" + t[1], 0
+        while True:
+            name = base if n == 0 else "%s_%d" % (base, n)
+            if name not in defs:
+                defs[name] = "Definition %s : ty := %s.\n" % (name, body)
+                order.append(name)
+                return name
+            if defs[name] == "Definition %s : ty := %s.\n" % (name, body):
+                return name
+            n += 1
     raise TranslateError("type %r" % (t,))
 
 
